@@ -2082,7 +2082,7 @@ impl InferContext {
                 Ok(res)
             }
             Pattern::Record(items) => {
-                let res = items
+                let mut res: Vec<RecordTypeField> = items
                     .iter()
                     .map(|(key, v)| {
                         bind_item(v.clone()).map(|ty| RecordTypeField {
@@ -2092,6 +2092,10 @@ impl InferContext {
                         })
                     })
                     .try_collect()?; //todo multiple errors
+                // The fields of a record value are laid out in alphabetical order of their keys
+                // (record literals are sorted when they are lowered). When the type of the bound
+                // value is inferred from this pattern, it has to describe the same layout.
+                res.sort_by(|a, b| a.key.as_str().cmp(b.key.as_str()));
                 let res = Type::Record(res).into_id_with_location(loc_p);
                 let target = self.convert_unknown_to_intermediate(ty, loc_b);
                 let rel = self.unify_types(res, target)?;
